@@ -1382,6 +1382,60 @@ def r1220(ctx):
                 ctx.bad(rid, c, f"the list of files removed before mdrun (`{short(lst, 50)}`) is computed before {tab}[{key!r}] is entered into the table: a `<name>.{key}` left by a crashed run with the same pid / counter is not deleted, GromacsRunner opens it at once and streams the old run's frames - wrong first frame, length, end point and success flag", construct=f"remove list computed before {tab}[{key!r}] is known")
 
 
+def r1221(ctx):
+    """The external MD program is started as the leader of its own session (`preexec_fn=os.setsid`)
+    because the configured command may be a wrapper (mpirun, a shell script) whose child does the
+    work. Stopping it therefore addresses the process *group*: `os.killpg(os.getpgid(p.pid), sig)`
+    or the shared helper terminate_process(p). `p.terminate()` / `p.kill()` / `os.kill(p.pid, ...)`
+    reach the direct child only - the real MD process keeps running and keeps appending frames to
+    the trajectory file the returned path references."""
+    rid = "R-12.21"
+    tree = ctx.tree
+    n = 0
+    for rel in ENGINE_FILES + [ENGBASE]:
+        for m, q, f in tree.all_funcs([rel]):
+            procs = set()
+            for st in walk_local(f):
+                if isinstance(st, ast.Assign) and isinstance(st.value, ast.Call) and last_name(st.value) == "Popen":
+                    own = any((k.arg == "preexec_fn" and "setsid" in ast.unparse(k.value)) or (k.arg == "start_new_session" and isinstance(k.value, ast.Constant) and k.value.value is True) for k in st.value.keywords)
+                    if own:
+                        for t in st.targets:
+                            procs.add(ast.unparse(t))
+            if not procs:
+                continue
+            # the same object may be stopped in sibling methods of the class (self.running)
+            scope = [f]
+            c_ = class_of(f)
+            if c_ is not None and any(p.startswith("self.") for p in procs):
+                scope = [g for g in c_.body if isinstance(g, FUNC)]
+            for g in scope:
+                for c in walk_local(g):
+                    if not isinstance(c, ast.Call):
+                        continue
+                    if isinstance(c.func, ast.Attribute) and c.func.attr in ("terminate", "kill", "send_signal") and ast.unparse(c.func.value) in procs:
+                        n += 1
+                        ctx.bad(rid, c, f"{getattr(g, '_fq', g.name)} stops the external program with `{short(c, 40)}`: the program was started as the leader of its own session because the command may be a wrapper, and this signal reaches the direct child only - the process that actually integrates keeps running and keeps writing to the trajectory the returned path references", construct=f"{g.name}: {short(c, 40)} on a session leader")
+                    elif dotted(c.func) == "os.kill" and c.args and any(ast.unparse(c.args[0]).startswith(p + ".") for p in procs):
+                        n += 1
+                        ctx.bad(rid, c, f"{getattr(g, '_fq', g.name)} signals only the direct child (`{short(c, 40)}`) of a program started in its own session", construct=f"{g.name}: os.kill on a session leader")
+                    elif dotted(c.func) == "os.killpg" and any(p in ast.unparse(c) for p in procs):
+                        n += 1
+                        ctx.ok(rid, c, f"{getattr(g, '_fq', g.name)}: the external program is stopped through its process group")
+                    elif last_name(c) == "terminate_process" and c.args and ast.unparse(c.args[0]) in procs:
+                        n += 1
+                        ctx.ok(rid, c, f"{getattr(g, '_fq', g.name)}: stopped through terminate_process (process group)")
+                    elif last_name(c) == "callback" and len(c.args) >= 2 and ast.unparse(c.args[0]).split(".")[-1] == "terminate_process" and ast.unparse(c.args[1]) in procs:
+                        n += 1
+                        ctx.ok(rid, c, f"{getattr(g, '_fq', g.name)}: terminate_process registered for the process group")
+    if n < 4:
+        raise AnalysisError(f"R-12.21: only {n} stop sites of session-leader processes found (expected >= 4)")
+    tp = tree.func(ENGBASE, "terminate_process")
+    if any(isinstance(c, ast.Call) and dotted(c.func) == "os.killpg" for c in walk_local(tp)):
+        ctx.ok(rid, tp, "terminate_process signals the process group")
+    else:
+        ctx.bad(rid, tp, "terminate_process does not signal the process group (os.killpg): children of a wrapper command survive", construct="terminate_process without killpg")
+
+
 def run(ctx):
     ctx.rule("R-12.9", "polling loops read the trajectory once more after the external program was observed finished (abstract interpretation over the loop's counter and the process state)", floor=2)
     ctx.rule("R-12.1", "every frame goes through add_to_path; stop tested before any further append; true edge ends all frame loops; returned success is add_to_path's", floor=5)
@@ -1393,6 +1447,8 @@ def run(ctx):
     ctx.rule("R-12.7", "every sleeping wait loop observes the external process", floor=6)
     ctx.rule("R-12.8", "frames handed to the engines by the on-the-fly readers do not share arrays (a frame's box and coordinates are its own)", floor=3)
     ctx.rule("R-12.15", "the configuration an engine starts from after a velocity reversal is the phase point itself: _reverse_velocities writes positions, box and identities exactly as read (shared with C19 R-19.5)", floor=5)
+    ctx.rule("R-12.21", "the external program, started as a session leader, is stopped through its process group (os.killpg / terminate_process), never through the Popen object alone", floor=4)
+    ctx.attempt(r1221, ctx)
     ctx.rule("R-12.20", "GROMACS: left-over .trr / .edr of the coming run's name are removed before mdrun starts (the remove list is computed after those names are in the output-file table)", floor=2)
     ctx.attempt(r1220, ctx)
     ctx.rule("R-12.19", "the shared stop rule reports success exactly for a frame strictly outside the interfaces (order < left, order > right), once per side", floor=2)
@@ -1447,6 +1503,7 @@ def run(ctx):
 
 
 VARIANTS = [
+    B("c12-lammps-stopped-through-popen-object", LAMMPS, "                                os.killpg(os.getpgid(exe.pid), signal.SIGTERM)", "                                exe.terminate()", "R-12.21", control=True, why="seeded C12_m"),
     B("c12-gromacs-remove-list-before-names", GROMACS, '        for key in ("cpt", "edr", "log", "trr"):\n            out_files[key] = f"{name}.{key}"\n        # Remove some of these files if present (e.g. left over from a\n        # crashed simulation). This is so that GromacsRunner will not\n        # start reading a .trr left from a previous simulation.\n\n        remove = [val for key, val in out_files.items() if key != "tpr"]\n', '        remove = [val for key, val in out_files.items() if key != "tpr"]\n        for key in ("cpt", "edr", "log", "trr"):\n            out_files[key] = f"{name}.{key}"\n', "R-12.20", control=True, why="seeded C12_k"),
     B("c12-gromacs-stale-trr-kept", GROMACS, '        remove = [val for key, val in out_files.items() if key != "tpr"]\n', '        remove = [val for key, val in out_files.items() if key not in ("tpr", "trr")]\n', "R-12.20"),
     K("c12-keep-stop-tests-on-a-local", ENGBASE, "        if path.phasepoints[-1].order[0] < left:\n", "        last_order = path.phasepoints[-1].order[0]\n        if left > last_order:\n"),
